@@ -872,6 +872,12 @@ regp_recv(RegP *p, RPMaybeFrame *mf)
         return -EINVAL;
     }
 
+    if (cs.buffer.data == NULL) {
+        /* Not a single octet arrived: an empty frame has no header. */
+        mf->error.id = EBADMSG;
+        return regp_resp_meta(p, RP_META_EHEADERENC);
+    }
+
     int rc = parse_frame(&cs.buffer);
 
     if (rc < 0) {
